@@ -9,6 +9,7 @@ from simbox.framework import Check
 from simbox.util import enc
 
 DOC = {  # condition -> documented status
+    "no-output": 0,  # a completed run that was not asked for a report
     "terminal": 0,
     "invalid-args": 3,
     "ai-env": 3,
@@ -97,6 +98,8 @@ def make_exp(conds, rng):
             argv_post += INVALID_ARGS[var]
         elif c == "ai-env":
             exp["env"].update(AI_ENVS[var])
+        elif c == "no-output":
+            pass
         elif c == "missing-dir":
             directory = ["<S>/does-not-exist", "", "<S>/T/pkg/nope"][var]  # "" = an unset shell variable
         elif c == "missing-result-file":
@@ -125,7 +128,8 @@ def make_exp(conds, rng):
     if not any(c == "ai-env" for c, _ in conds) and rng is not None:
         exp["env"].update(rng.choice(AI_OK_ENVS))
     argv = [directory] + argv_pre
-    if output is not None:
+    no_output = (rng is not None and rng.random() < 0.12 and not any(c == "report-unwritable" for c, _ in conds)) or conds == [("no-output", 0)]
+    if output is not None and not no_output:
         argv += ["--output", output]
     argv += ["--codemod-include", "pixee:python/remove-unnecessary-f-str,pixee:python/fix-mutable-params"]
     if any(c == "invalid-args" and INVALID_ARGS[v][0] == "--codemod-include" for c, v in conds):
@@ -175,6 +179,7 @@ class C20(Check):
         out += [("invalid-args", i) for i in range(len(INVALID_ARGS))]
         out += [("ai-env", i) for i in range(len(AI_ENVS))]
         out += [("missing-dir", i) for i in range(3)]
+        out += [("no-output", 0)]
         out += [("missing-result-file", i) for i in range(len(MISSING_RESULT))]
         out += [("dup-sarif-tool", i) for i in range(len(DUP_SARIF))]
         out += [("report-unwritable", i) for i in range(len(REPORT_FAULTS))]
